@@ -61,6 +61,19 @@ Theorem C05_project_idempotent : forall pl p, unit_normal pl ->
   plane_project ROps pl (plane_project ROps pl p) = plane_project ROps pl p.
 Proof. exact project_idempotent. Qed.
 
+(* the same laws without the unit hypothesis (constructor-accepted normals are unit only to 1e-6): exact defect terms *)
+Theorem C05_project_sd_defect : forall pl p,
+  plane_sd ROps pl (plane_project ROps pl p) = plane_sd ROps pl p * (1 - vnorm2 ROps (pnormal pl)).
+Proof. exact project_sd_defect. Qed.
+Theorem C05_mirror_sd_defect : forall pl p,
+  plane_sd ROps pl (plane_mirror ROps pl p) = plane_sd ROps pl p * (1 - 2 * vnorm2 ROps (pnormal pl)).
+Proof. exact mirror_sd_defect. Qed.
+Theorem C05_project_twice_defect : forall pl p,
+  plane_project ROps pl (plane_project ROps pl p) =
+  vsub ROps (plane_project ROps pl p)
+       (vscale ROps (plane_sd ROps pl p * (1 - vnorm2 ROps (pnormal pl))) (pnormal pl)).
+Proof. exact project_twice_defect. Qed.
+
 (* mirroring *)
 Theorem C05_mirror_negates : forall pl p, unit_normal pl ->
   plane_sd ROps pl (plane_mirror ROps pl p) = - plane_sd ROps pl p.
@@ -78,6 +91,7 @@ Proof. exact flipped_negates. Qed.
 Theorem C05_flipped_same_point_set : forall pl p,
   plane_sd ROps (flipped ROps pl) p = 0 <-> plane_sd ROps pl p = 0.
 Proof. exact flipped_same_point_set. Qed.
+(* (the first conjunct restates C05_sd_is_dot through the equation; the second pins the normal part) *)
 Theorem C05_equation_describes_plane : forall pl p,
   sd_eq ROps p (plane_equation ROps pl) = vdot ROps (vsub ROps p (pref pl)) (pnormal pl) /\
   eq_normal (plane_equation ROps pl) = pnormal pl.
@@ -86,7 +100,9 @@ Theorem C05_canonical_point_on_plane : forall pl, unit_normal pl ->
   plane_sd ROps pl (canonical_point ROps pl) = 0.
 Proof. exact canonical_point_on_plane. Qed.
 
-(* stacked forms (shared equation, or one equation per point) equal the single form row by row *)
+(* stacked forms (shared equation, or one equation per point) equal the single form row by row.
+   definitional: these two pin the shape of the model (stacking = map / map2); the clause itself is carried by the traced
+   ties (stacks of 2 through the real code) and by the correspondence check (stacks of 0..8) *)
 Theorem C05_stacked_is_map_single : forall ps e k,
   nth_error (sd_stack ROps ps e) k = option_map (fun p => sd_eq ROps p e) (nth_error ps k) /\
   nth_error (project_stack ROps ps e) k = option_map (fun p => project_eq ROps p e) (nth_error ps k) /\
@@ -99,13 +115,19 @@ Theorem C05_pairs_is_map_single : forall ps es k p e,
   nth_error (mirror_pairs ROps ps es) k = Some (mirror_eq ROps p e).
 Proof. exact pairs_is_map_single. Qed.
 
+Theorem C05_pairs_length : forall ps es, length ps = length es ->
+  length (sd_pairs ROps ps es) = length ps /\ length (project_pairs ROps ps es) = length ps /\
+  length (mirror_pairs ROps ps es) = length ps.
+Proof. exact pairs_length. Qed.
+
 (* non-vacuity: a plane with a unit (non-axis) normal exists *)
 Example C05_unit_normal_inhabited :
   unit_normal (MkPlane (V3 1 2 3) (V3 (2/3) (-1/3) (2/3))).
 Proof. unfold unit_normal, vnorm2, vdot; cbn. field. Qed.
 
 (* one pass over all of them *)
-Definition C05_all := (C05_sd_is_dot,
+Definition C05_all := (C05_project_sd_defect, C05_mirror_sd_defect, C05_project_twice_defect, C05_pairs_length,
+  C05_sd_is_dot,
   C05_sign_classifies,
   C05_front_partition,
   C05_on_or_front_partition,
